@@ -150,7 +150,7 @@ pub fn t_witness(lookalike: bool) -> BS<Vec<u8>> {
 pub fn t_multisig() -> BS<Vec<u8>> {
     let keylen = weighted(vec![(6, Just(33usize).boxed()), (3, Just(65usize).boxed()), (1, (1usize..70).boxed())]);
     let num = |v: u8| if v == 0 { 0x00u8 } else { 0x50 + v };
-    (0u8..=16, 0u8..=16, prop_oneof![3 => Just(true), 1 => Just(false)], vec(keylen.prop_flat_map(payload), 0..=17usize), any_form(), prop_oneof![8 => Just(0xaeu8), 1 => Just(0xafu8), 1 => Just(0xacu8)])
+    (0u8..=16, 0u8..=16, prop_oneof![3 => Just(true), 1 => Just(false)], prop_oneof![4 => 1usize..=3, 2 => 4usize..=14, 1 => Just(15usize), 2 => Just(16usize), 1 => Just(17usize), 1 => Just(0usize)].prop_flat_map(move |k| vec(keylen.clone().prop_flat_map(payload), k)), any_form(), prop_oneof![8 => Just(0xaeu8), 1 => Just(0xafu8), 1 => Just(0xacu8)])
         .prop_map(move |(m, n, right_n, keys, form, last)| {
             let k = keys.len().min(16) as u8;
             let n = if right_n { k } else { n };
